@@ -166,9 +166,10 @@ def main():
                    "proved for the DFA builder API (unit dfa_builders): under their stated preconditions the builders' own assert!s cannot fire, indexing is in bounds, and wf_dfa (every transition target is a "
                    "state) is preserved by every builder; the preconditions themselves are not verified at the call sites in nfa_to_dfa / add_dfa"] + ["UNDECIDED: " + u for u in undecided]
     rc = C.EXIT_VIOLATION if violations else (C.EXIT_UNDECIDED if undecided else C.EXIT_OK)
-    C.write_evidence(PROP, "model_checking" if False else "other", dict(cov, explanation="bounded stand-in by execution of the real macro on a corpus under a watchdog, plus a Verus termination proof of the backtrack analysis when listed"), assumptions, time.time() - t0, violations)
     for u in undecided:
         C.say("UNDECIDED " + u)
+    rc = C.settle(rc, ok + (vsum["discharged"] if vsum else 0))
+    C.write_evidence(PROP, "model_checking" if False else "other", dict(cov, explanation="bounded stand-in by execution of the real macro on a corpus under a watchdog, plus a Verus termination proof of the backtrack analysis when listed"), assumptions, time.time() - t0, violations)
     for ln in lines:
         C.say(ln)
     C.say("%s: %d/%d definitions expand and compile, %.1fs, exit %d" % (PROP, ok, len(samples), time.time() - t0, rc))
